@@ -38,13 +38,15 @@ def roots(tier, seed):
             npts_all = sorted({nf + 1, 2 * nf + 1, (nf + 1) * (nf + 2) // 2})
             for where in ["in", "on", "out"]:
                 for obj, nan in [("quad", None), ("quad_far", None), ("lin", None), ("abs", None), ("quad", "half")]:
-                    for cons in ["none", "lin_le", "ball_le", "ball_eq", "cubic_le"]:
+                    for cons in ["none", "lin_le", "ball_le", "ball_eq", "cubic_le", "lin+cubic"]:
                         for scale in ([False, True] if finite else [False]):
                             for npt in npts_all:
                                 # thinning of the full cross product (kept complete on its 2-way projections)
+                                if cons == "lin+cubic" and (obj not in ("quad", "lin") or npt != 2 * nf + 1):
+                                    continue
                                 if npt != 2 * nf + 1 and (obj != "quad" or nan or where == "on"):
                                     continue
-                                if nan and cons in ("lin_le", "ball_eq"):
+                                if nan and cons in ("lin_le", "ball_eq", "lin+cubic"):
                                     continue
                                 if n == 3 and (where == "on" or obj in ("abs",) or npt != 2 * nf + 1):
                                     continue
